@@ -312,6 +312,35 @@ func init() {
 					}
 				})
 			})
+			// no parameter is declared at all; what the arguments need (function calls, concatenation, %%, env, todo) is
+			// needed all the same - in a constructor argument, a call, a field, a decorator argument; both modes
+			for ai, arg := range []any{`%env("C01_X", "d")%`, `a%env("C01_X", "d")%b`, "100%%", `%envInt("C01_N", 1)%`, `%todo("later")%`, `%fnStr("x")%-%fnInt()%`, "x%%y%%", "plain", 5, nil} {
+				for _, pos := range []string{"ctor", "call", "field", "decorator", "value-field"} {
+					for stub := 0; stub < 2; stub++ {
+						ai, arg, pos, stub := ai, arg, pos, stub
+						id := fmt.Sprintf("no-parameters/%d/%s/stub=%d", ai, pos, stub)
+						w.Case(id, func(c *C) {
+							cfg := &Cfg{Meta: stdMeta()}
+							sv := Service{Name: "sut", Constructor: P("pk.New")}
+							switch pos {
+							case "ctor":
+								sv.Args = []any{arg}
+							case "call":
+								sv.Calls = []Call{{Method: "Set1", Args: []any{arg}}}
+							case "field":
+								sv.Fields = []KV{{"F1", arg}}
+							case "decorator":
+								sv.Tags = []Tag{{Name: "tg"}}
+								cfg.Decorators = []Decorator{{Tag: "tg", Decorator: "pk.Dec1", Args: []any{arg}}}
+							case "value-field":
+								sv = Service{Name: "sut", Value: P("pk.Obj{}"), Fields: []KV{{"F1", arg}}}
+							}
+							cfg.Services = []Service{sv}
+							evalCfg(c, id, cfg, []File{{"c.yaml", cfg.YAML()}}, false, stub == 1)
+						})
+					}
+				}
+			}
 			// how a registered function names its package x how often it is used (0, 1, 2, 3 times) x both modes
 			for _, ff := range []struct {
 				id, fn string
